@@ -444,6 +444,12 @@ void prop_main_t(const Case& cs) {
       nmerge++;
       // the moved-from argument was replaced by a fresh sketch: give it new content
       if (rvalue) fill(sl[si], op.uarg(4) % 200, static_cast<int>(op.uarg(5) % NPATTERNS), op.uarg(4) * 31 + op.uarg(5), "refill update");
+      check_basic(sl[di], f, "merge"); check_sample(sl[di], f, 1);
+      // updates right after the merge (they use the merged maximum weight, rho and k)
+      for (uint64_t j = 0, np = op.uarg(6) % 5; j < np; ++j) {
+        do_update(sl[di], next_id++, single_weight((op.uarg(7) + 7 * j) % 4096, f.arbitrary), j & 1);
+        check_basic(sl[di], f, "update after merge");
+      }
       check_basic(sl[di], f, "merge"); check_basic(sl[si], f, "merge (argument)");
       check_sample(sl[si], f, 1);
     } else if (op.name == "ser") {
@@ -604,7 +610,8 @@ rc::Gen<Case> gen_main() {
       {2, op4("bulk", slot, range(0, 12), range(0, NPATTERNS - 1), range(0, 1 << 20))},
       {5, rc::gen::exec([=]() {
          Op op{"merge", {}};
-         op.a = {*slot, *slot, *range(0, 1), *k_gen(), *rc::gen::weightedOneOf<int64_t>({{1, range(0, 0)}, {4, range(1, 12)}, {2, range(13, 80)}}), *range(0, NPATTERNS - 1)};
+         op.a = {*slot, *slot, *range(0, 1), *k_gen(), *rc::gen::weightedOneOf<int64_t>({{1, range(0, 0)}, {4, range(1, 12)}, {2, range(13, 80)}}), *range(0, NPATTERNS - 1),
+                 *rc::gen::weightedOneOf<int64_t>({{2, range(0, 0)}, {3, range(1, 4)}}), *rc::gen::weightedOneOf<int64_t>({{5, range(0, 15)}, {2, range(16, 4095)}})};
          return op;
        })},
       {1, op2("ser", slot, range(0, 2))},
